@@ -24,6 +24,19 @@ func releaseAllocatedIPs(ippool *IPPool, session *PFCPSession) error {
 	return nil
 }
 
+// Release the F-TEIDs the UPF chose for the session's PDRs.
+func releaseAllocatedFTEIDs(generator *FTEIDGenerator, session *PFCPSession) {
+	if generator == nil {
+		return
+	}
+
+	for _, pdr := range session.pdrs {
+		if pdr.UPAllocateFteid {
+			generator.FreeID(pdr.tunnelTEID)
+		}
+	}
+}
+
 func addPdrInfo(msg *message.SessionEstablishmentResponse, pdrs []pdr) {
 	logger.PfcpLog.Infoln("add PDRs with UPF alloc IPs to Establishment response")
 	logger.PfcpLog.Infoln("PDRs:", pdrs)
